@@ -64,16 +64,17 @@ def make_bad(kind: str) -> Any:
 def expand(w: Any) -> Any:
     """{"$big": n} -> a string of n characters; {"$deep": n} -> an object nested n levels; {"$int": "..."} -> that integer"""
     if isinstance(w, dict):
-        if set(w.keys()) == {"$big"}:
+        # (a generated payload may by chance contain one of these keys with some other value: left as it is)
+        if set(w.keys()) == {"$big"} and type(w["$big"]) is int and 0 <= w["$big"] <= 10**6:
             return ("x\u00e9" * (w["$big"] // 2 + 1))[: w["$big"]]
-        if set(w.keys()) == {"$deep"}:
+        if set(w.keys()) == {"$deep"} and type(w["$deep"]) is int and 0 <= w["$deep"] <= 2000:
             d: Dict[str, Any] = {}
             cur = d
             for _ in range(w["$deep"]):
                 cur["k"] = {}
                 cur = cur["k"]
             return d
-        if set(w.keys()) == {"$int"}:
+        if set(w.keys()) == {"$int"} and isinstance(w["$int"], str) and w["$int"].lstrip("-").isdigit() and w["$int"].isascii():
             return int(w["$int"])
         return {k: expand(v) for k, v in w.items()}
     if isinstance(w, list):
